@@ -33,7 +33,7 @@ RULE = (
 )
 ASSUMPTIONS = ["bodies whose value is needed to choose a branch (dispatch, bind source, case dispatch, Map iterables) count as needed"]
 FLOORS = {"constructions_checked": (1500, 30000), "evaluations_checked": (4000, 80000), "skipped_bodies_confirmed": (1500, 30000),
-          "windows_checked": (2000, 20000), "apply_order_checked": (100, 1000), "definition_time_checks": (60, 600), "namespace_default_runs_at_evaluation": (60, 600), "late_dispatch_evaluations": (400, 4000), "selected_step_orders": (100, 1000), "selected_branch_failures": (300, 3000)}
+          "windows_checked": (2000, 20000), "apply_order_checked": (100, 1000), "definition_time_checks": (60, 600), "namespace_default_runs_at_evaluation": (60, 600), "late_dispatch_evaluations": (400, 4000), "selected_step_orders": (100, 1000), "selected_branch_failures": (300, 3000), "dataset_class_instantiations": (100, 1000), "dataset_class_with_overridden_member": (50, 500)}
 SHARDS_QUICK = 4
 
 
@@ -486,6 +486,98 @@ def selected_step_order(ctx, r, case):
     ctx.nontrivial(spec_hash(["selected-step", kind, fails, as_callback]))
 
 
+def dataset_class_members(ctx, r, case):
+    """Dataset classes with inheritance: a derived class that re-defines a member REPLACES it.  Instantiating the class
+    (directly, or as the argument of a consumer) runs the body of the winning definition of each member, once, and
+    never a shadowed one; validate / keys / explain of the class run nothing."""
+    log = Log()
+
+    def member(level, name, kind):
+        if kind == "dataset":
+            def f(a=Option("A", 0)):
+                log.hit("body", f"{level}.{name}")
+                return (level, name, a)
+
+            f.__name__ = f"{level}_{name}"
+            return dataset(f)
+        if kind == "dataset-of-dataset":
+            def g():
+                log.hit("body", f"{level}.{name}.inner")
+                return "inner"
+
+            g.__name__ = f"{level}_{name}_inner"
+            inner = dataset(g)
+
+            def f(x=inner):
+                log.hit("body", f"{level}.{name}")
+                return (level, name, x)
+
+            f.__name__ = f"{level}_{name}"
+            return dataset(f)
+        if kind == "option":
+            return Option("B", f"{level}.{name}.dflt")
+        return f"{level}.{name}.const"
+
+    names = ["m0", "m1", "m2", "m3"]
+    kinds = ["dataset", "dataset", "dataset-of-dataset", "option", "const"]
+    winning = {}
+    levels = []
+    cls = None
+    depth = r.choice([2, 2, 3])
+    for li in range(depth):
+        level = f"L{li}"
+        defined = names[: r.choice([2, 3, 4])] if li == 0 else r.sample(names, r.choice([1, 2, 3]))
+        ns = {"__annotations__": {}}
+        for n in defined:
+            k = r.choice(kinds)
+            ns[n] = member(level, n, k)
+            ns["__annotations__"][n] = object
+            winning[n] = (level, k)
+        plain = type(level, (cls,) if cls is not None else (), ns)
+        cls = datasetclass(plain) if (li == depth - 1 or r.random() < 0.7) else plain
+        levels.append((level, sorted(defined)))
+    W = {"family": "dataset-class", "case": case, "shard": ctx.shard, "shards": ctx.shards, "levels": levels}
+    if log.events:
+        ctx.violation("body-ran-at-definition", f"defining dataset classes ran {[e[2] for e in log.events][:5]}", W)
+        return
+    expected = set()
+    for n, (level, k) in winning.items():
+        if k in ("dataset", "dataset-of-dataset"):
+            expected.add(f"{level}.{n}")
+        if k == "dataset-of-dataset":
+            expected.add(f"{level}.{n}.inner")
+    o = r.choice([{}, {"A": 1}, {"A": 2, "B": "b"}])
+    for op in ("validate", "keys", "explain"):
+        getattr(cls, op)(copy.deepcopy(o))
+    if log.events:
+        ctx.violation("body-ran-during-inspection", f"validate/keys/explain of a dataset class ran {[e[2] for e in log.events][:5]}", W)
+        return
+    route = r.choice(["call", "evaluate", "consumer"])
+    mark = log.mark()
+    if route == "call":
+        cls(copy.deepcopy(o))
+    elif route == "evaluate":
+        cls.evaluate(copy.deepcopy(o))
+    else:
+        def consumer(c=cls):
+            return c
+
+        dataset(consumer)(copy.deepcopy(o))
+    ran = [e[2] for e in log.since(mark, ("body",))]
+    ctx.evaluations += 1
+    ctx.count("dataset_class_instantiations")
+    if len([n for _, ds_ in levels for n in ds_]) > len({n for _, ds_ in levels for n in ds_}):
+        ctx.count("dataset_class_with_overridden_member")
+    extra = [x for x in ran if x not in expected]
+    missing = [x for x in expected if x not in ran]
+    twice = sorted({x for x in ran if ran.count(x) > 1})
+    if extra or missing or twice:
+        ctx.violation("dataset-class-bodies", f"instantiating ({route}) a dataset class {levels} under {o}: bodies run {ran}; shadowed/unneeded {extra}, missing {missing}, repeated {twice}", {**W, "options": o, "ran": ran})
+        return
+    if len(ran) >= 1:
+        ctx.nontrivial(spec_hash(["dataset-class", levels, sorted(winning.items()), o, route]))
+
+
 def run(ctx):
     rng = ctx.rng
     dicts = directed.dictionaries()
@@ -497,6 +589,7 @@ def run(ctx):
         late_dispatch(ctx, case_rng(ctx, ("late", i)), i)
         selected_step_order(ctx, case_rng(ctx, ("selstep", i)), i)
         selected_branch_fails(ctx, case_rng(ctx, ("selfail", i)), i)
+        dataset_class_members(ctx, case_rng(ctx, ("dsclass", i)), i)
     for i, p in enumerate(directed.programs()):
         if i % ctx.shards != ctx.shard:
             continue
@@ -520,6 +613,9 @@ def replay(ctx, rep):
     if w.get("family") == "selected-branch-fails":
         ctx.shard, ctx.shards = w.get("shard", 0), w.get("shards", 1)
         selected_branch_fails(ctx, case_rng(ctx, ("selfail", w["case"])), w["case"])
+    elif w.get("family") == "dataset-class":
+        ctx.shard, ctx.shards = w.get("shard", 0), w.get("shards", 1)
+        dataset_class_members(ctx, case_rng(ctx, ("dsclass", w["case"])), w["case"])
     elif w.get("family") == "selected-step":
         ctx.shard, ctx.shards = w.get("shard", 0), w.get("shards", 1)
         selected_step_order(ctx, case_rng(ctx, ("selstep", w["case"])), w["case"])
